@@ -853,6 +853,40 @@ def gen_c03(seed, count):
 PYGEN['py_c03'] = gen_c03
 
 
+def gen_hist(seed, count):
+    """the histories of History.v: a healthy connection without keep-alive to the answering broker, then any number
+    of acknowledged operations in any order, each followed by its poll() (two for QoS 2).  C16_history_completes
+    says what must happen; mon_hist checks exactly that on the implementation."""
+    out = []
+    for idx in range(count):
+        r = random.Random((seed << 20) ^ idx ^ 0x4157)
+        c = Case(rx=r.choice([16, 32, 64, 128]), tx=r.choice([64, 128, 256, 1152]), ka=0, cid=r.choice([b't', b'client-h']))
+        c.broker(2)
+        c.connect()
+        c.broker(1)
+        for j in range(r.randint(1, 40 if idx % 7 == 0 else 12)):
+            x = r.random()
+            tag = bytes([97 + j % 26])
+            if x < 0.35:
+                c.publish(r.choice([b'a', b't/1', 'caf\u00e9'.encode()]) , bytes(r.randrange(256) for _ in range(r.choice([0, 1, 5, 20, 20, 100, 300]))), qos=1,
+                          props=r.choice([(), (), ((1, 1),), ((38, (b'k', b'v')),)]))
+                c.poll()
+            elif x < 0.65:
+                c.publish(b'q2/' + tag, bytes(r.randrange(256) for _ in range(r.choice([0, 3, 12]))), qos=2, retain=r.random() < 0.2)
+                c.poll(2)
+            elif x < 0.85:
+                c.subscribe(tuple((b'f/' + tag + bytes([48 + k]), r.randint(0, 2)) for k in range(r.randint(1, 3))))
+                c.poll()
+            else:
+                c.unsubscribe(tuple(b'f/' + tag + bytes([48 + k]) for k in range(r.randint(1, 2))))
+                c.poll()
+        out.append(c.line())
+    return out
+
+
+PYGEN['py_hist'] = gen_hist
+
+
 def gen_c06(seed, count):
     """flow control against a small Receive Maximum: the window is filled with QoS 1 / QoS 2 publishes, subscribes and
     unsubscribes are acknowledged in between (their acknowledgements must not open the window), publish
